@@ -61,13 +61,146 @@ def dump(F, fmt, obj, mv):
     return obj.dumps()
 
 
+ISSUES = []          # public container operations that raised while an object was being rebuilt in another style
+
+
+def restyle(fmt, obj, seed):
+    """the same content through ANOTHER construction style of the public containers: sets / dicts refilled in place in another order
+    (`.add`, item assignment, `add_checksum`, `Checksums.add`), an entry removed and added again, an entry added and removed again,
+    empty buckets that still exist.  Nothing here changes what the object contains."""
+    import random
+    rng = random.Random("restyle-%s" % seed)
+
+    def refill_set(s_):
+        items = list(s_)
+        rng.shuffle(items)
+        s_.clear()
+        for x in items:
+            s_.add(x)
+
+    def refill_dict(d):
+        items = list(d.items())
+        rng.shuffle(items)
+        d.clear()
+        for k, v in items:
+            d[k] = v
+    if fmt == "composeinfo":
+        from productmd.composeinfo import Variant
+
+        def rec(container):
+            for key in list(container.variants):
+                v = container.variants[key]
+                refill_set(v.arches)
+                for cat in v.paths._fields:
+                    refill_dict(getattr(v.paths, cat))
+                rec(v)
+            keys = list(container.variants)
+            if keys and rng.random() < 0.7:
+                k = rng.choice(keys)                      # removed through the public container and added again: now last
+                v = container.variants[k]
+                del container[k]
+                if k == v.id:
+                    container.add(v)
+                else:
+                    container.variants[k] = v
+        rec(obj.variants)
+        tops = [v for v in obj.variants.variants.values() if "-" not in v.uid]
+        if tops:
+            p = rng.choice(tops)                          # a child added and removed again
+            t = Variant(obj)
+            t.id, t.uid, t.name, t.type = "Tmp0", p.uid + "-Tmp0", "tmp", "variant"
+            t.arches = set(list(p.arches)[:1])
+            if "Tmp0" not in p.variants:
+                p.add(t)
+                del p["Tmp0"]
+    elif fmt == "images":
+        for v in list(obj.images):
+            for a in list(obj.images[v]):
+                cell = obj.images[v][a]
+                for img in list(cell):
+                    cks = list(img.checksums.items())
+                    rng.shuffle(cks)
+                    img.checksums = {}
+                    for k, val in cks:
+                        img.add_checksum(None, k, val)
+                items = list(cell)
+                if items:
+                    x = rng.choice(items)
+                    cell.discard(x)
+                    cell.add(x)
+            obj.images[v].setdefault("s390x" if "s390x" not in obj.images[v] else "ia64", set())     # an empty cell that still exists
+        obj.images.setdefault("ZZ-empty-variant", {})                                                   # an empty variant bucket
+    elif fmt == "treeinfo":
+        refill_set(obj.tree.platforms)
+        cks = list(obj.checksums.checksums.items())
+        rng.shuffle(cks)
+        obj.checksums.checksums.clear()
+        for path, (typ, val) in cks:
+            import os.path
+            if os.path.normpath(path) == path:
+                obj.checksums.add(path, typ, val)         # the public method (stores a list, not a tuple)
+            else:
+                obj.checksums.checksums[path] = (typ, val)
+        refill_dict(obj.images.images)
+        for plat in obj.images.images:
+            refill_dict(obj.images.images[plat])
+
+        def rec(container):
+            for key in list(container.variants):
+                rec(container.variants[key])
+            keys = [k for k in container.variants if container.variants[k].id == k]
+            if keys and hasattr(container, "uid") and rng.random() < 0.7:
+                # `del parent[child]` also drops the checksum of <repository>/repodata/repomd.xml: only children for which that is no entry
+                safe = [k for k in keys if container.variants[k].paths.repository is None
+                        or container.variants[k].paths.repository + "/repodata/repomd.xml" not in obj.checksums.checksums]
+                with_repo = [k for k in safe if container.variants[k].paths.repository is not None]
+                without = [k for k in safe if container.variants[k].paths.repository is None]
+                pick = with_repo[:1] + (without[:1] if rng.random() < 0.25 else [])
+                for k in pick:
+                    v = container.variants[k]
+                    try:
+                        del container[k]
+                    except Exception as e:  # noqa
+                        ISSUES.append({"fmt": fmt, "op": "del variant[child]", "err": type(e).__name__, "child": v.uid,
+                                       "child_repository": v.paths.repository})
+                        continue
+                    container.add(v)
+        rec(obj.variants)
+    elif fmt == "discinfo":
+        nums = list(obj.disc_numbers)
+        obj.disc_numbers = []
+        for x in nums:
+            obj.disc_numbers.append(x)
+    return obj
+
+
 def run(F, req):
     fmt, n, mv = req["fmt"], int(req.get("ndumps", 1)), req.get("mv")
     runs = []
-    for spec in req["specs"]:
+    styles = req.get("styles") or []
+    prebuilt = None
+    if req.get("interleave"):
+        # all the objects of the case exist side by side before the first one is dumped
+        prebuilt = []
+        for spec in req["specs"]:
+            try:
+                prebuilt.append(build(F, fmt, spec))
+            except Exception as e:  # noqa
+                prebuilt.append(e)
+    for si, spec in enumerate(req["specs"]):
         r = {"sha": [], "text": None, "err": None, "other": {}}
         try:
-            obj = build(F, fmt, spec)
+            if prebuilt is not None:
+                obj = prebuilt[si]
+                if isinstance(obj, Exception):
+                    raise obj
+            else:
+                obj = build(F, fmt, spec)
+            if si < len(styles) and styles[si]:
+                del ISSUES[:]
+                obj = restyle(fmt, obj, styles[si])
+                if ISSUES:
+                    r["issues"] = list(ISSUES)
             r["before"] = state_of(fmt, obj)
             if fmt in ("rpms", "modules", "extra_files"):
                 import c08_manifests
@@ -148,6 +281,38 @@ def touch(F, fmt, obj, text, how):
         pass
 
 
+def modify(F, fmt, obj, old, new):
+    """dump -> MODIFY -> dump: bring the object from content `old` to content `new` through the public API (scalars reassigned, further
+    add calls); afterwards it must dump like a fresh object built from `new`"""
+    if fmt == "composeinfo":
+        obj.compose.respin = new["compose"]["respin"]
+        obj.compose.id = new["compose"]["id"]
+        obj.release.version = new["release"]["version"]
+    elif fmt == "treeinfo":
+        obj.release.version = new["release"]["version"]
+        obj.tree.build_timestamp = F[fmt].ts_value(new["tree"]["build_timestamp"])
+        obj.tree.platforms = set(new["tree"]["platforms"])
+    elif fmt == "discinfo":
+        obj.description = new["description"]
+        obj.disc_numbers = list(new["disc_numbers"])
+    elif fmt == "images":
+        im = F[fmt].lib()
+        obj.compose.respin = new["compose"]["respin"]
+        objs = {}
+        for v, a, idx in new["adds"][len(old["adds"]):]:
+            if idx not in objs:
+                objs[idx] = F[fmt].new_image(im, obj, new["pool"][idx])
+            obj.add(v, a, objs[idx])
+    else:
+        import c08_manifests
+        obj.compose.respin = new["compose"]["respin"]
+        for op in new["ops"][len(old["ops"]):]:
+            try:
+                c08_manifests.F(fmt).add(obj, op)
+            except (ValueError, TypeError):
+                pass
+
+
 def run_seq(F, req):
     """ONE object, a sequence of steps; every dump is paired with the dump of a FRESH object of the same content made with the
     same argument.  steps: {"dump": main_variant | None} | {"touch": how}"""
@@ -160,6 +325,11 @@ def run_seq(F, req):
             if "touch" in st:
                 touch(F, fmt, obj, last, st["touch"])
                 out["steps"].append({"touch": st["touch"]})
+                continue
+            if "modify" in st:
+                modify(F, fmt, obj, spec, st["modify"])
+                spec = st["modify"]
+                out["steps"].append({"modify": True})
                 continue
             if "export" in st:
                 # ExtraFiles.dump_for_tree(out, variant, arch, basepath): a derived file; its text too must be what a fresh object gives
